@@ -116,6 +116,11 @@ func (q *rpcQueue) Pop(ctx context.Context) (*RPC, error) {
 		// Wake up all the waiting routines. The only routine that correponds
 		// to this Pop call will return from the function. Note that this can
 		// be expensive, if there are too many waiting routines.
+		//
+		// The lock must be held: otherwise the broadcast can land between the
+		// waiter's ctx check and its Wait, be lost, and Pop never returns.
+		q.queueMu.Lock()
+		defer q.queueMu.Unlock()
 		q.dataAvailable.Broadcast()
 	})
 	defer unregisterAfterFunc()
